@@ -6,7 +6,7 @@ use crate::docgen::*;
 use crate::tree::*;
 
 #[derive(Clone, Debug, PartialEq, Eq, PartialOrd, Ord)]
-enum Sig {
+pub enum Sig {
     Begin,
     End,
     Ident(String),
@@ -64,7 +64,7 @@ fn num_key(t: &str) -> Sig {
 
 /// significant tokens; `hex_twos`: hex literals are compared by text (upper-cased), because their value depends on
 /// the width of the field (two's complement)
-fn sig_tokens(text: &str) -> Option<(Vec<Sig>, Vec<String>)> {
+pub fn sig_tokens(text: &str) -> Option<(Vec<Sig>, Vec<String>)> {
     let toks = catch(|| a2lfile::verif_hooks::tokenize_dump(text)).ok()?.ok()?;
     let mut sig = vec![];
     let mut block_comments = vec![];
